@@ -30,7 +30,7 @@ fn main() {
         sort: Some(vec!["k".into()]),
         unique_keys: true,
     };
-    let dc = DirCase { seed, vstores: vec![false, true], stores: vec![st], indexes: vec![IndexDef { name: "all".into(), store: 0, offset: 0, count: 24 }, IndexDef { name: "win".into(), store: 0, offset: 5, count: 9 }], defer: 1 };
+    let dc = DirCase { seed, vstores: vec![false, true], stores: vec![st], indexes: vec![IndexDef { name: "all".into(), store: 0, offset: 0, count: 24 }, IndexDef { name: "win".into(), store: 0, offset: 5, count: 9 }], defer: 1, free: 0 };
     let (inst, bytes) = create_mem(&dc).expect("create directory");
     let pack = open_dir_mem(bytes).expect("open directory");
     verify_dir(&dc, &inst, &pack, &mut out, &VerifyOpts { prop: "C02", handles: true });
